@@ -157,6 +157,9 @@ pub fn install_panic_hook() {
         } else {
             "<non-string payload>".into()
         };
+        if std::env::var_os("VERIF_PANIC_VERBOSE").is_some() {
+            eprintln!("PANIC {loc} {msg}\n{}", std::backtrace::Backtrace::force_capture());
+        }
         let mut p = PANICS.lock().unwrap_or_else(|e| e.into_inner());
         if p.len() < 64 {
             p.push(format!("{loc} \"{}\"", msg.chars().take(200).collect::<String>()));
